@@ -31,7 +31,8 @@ const ITEMS: [Item; 11] = [
     Item::IfdefNoName,
     Item::DefineNoName,
 ];
-const MACROS: [&str; 2] = ["AAA", "BBB"];
+// (macro names are identifiers: letters, digits, underscores, not starting with a digit)
+const MACROS: [&str; 2] = ["AAA", "__B_2_TD__"];
 
 /// Outcome of the reference evaluation of a directive/marker sequence.
 pub struct RefEval {
@@ -347,7 +348,7 @@ fn ide_case(rng: &mut Rng, ctx: &mut Ctx) {
     let mut expect_visible: Vec<String> = Vec::new();
     let mut k = 0usize;
     let mut defined: Vec<bool> = vec![false; 3];
-    let names = ["MA", "MB", "MC"];
+    let names = ["MA", "_MB", "M_C_3"];
     // recursive generation with explicit stack of enabledness
     fn gen(rng: &mut Rng, depth: usize, enabled: bool, text: &mut String, vis: &mut Vec<String>, k: &mut usize, defined: &mut Vec<bool>, names: &[&str]) {
         let n = rng.range(1, 4);
